@@ -160,6 +160,15 @@ func (eval *Evaluator) BlindRotateCore(a []uint64, acc *rlwe.Ciphertext, BRK Bli
 	}
 
 	// Line 10 (0 in the negative set is 2N)
+	// The pending automorphism must be applied before the products of this set
+	// (the loop above only flushes it when its window is full).
+	if _, ok := discreteLogSets[eval.paramsBR.N()<<1]; ok && v != 0 {
+		if err = eval.Automorphism(acc, GaloisElement(v), acc); err != nil {
+			return
+		}
+		v = 0
+	}
+
 	if _, err = eval.evaluateFromDiscreteLogSets(GaloisElement, discreteLogSets, eval.paramsBR.N()<<1, 0, acc, BRK); err != nil {
 		return
 	}
@@ -247,6 +256,11 @@ func getGaloisElementInverseMap(GaloisGen uint64, N int) (GaloisGenDiscreteLog m
 		GaloisGenDiscreteLog[pow] = i
 		/* #nosec G115 -- twoN cannot be negative */
 		GaloisGenDiscreteLog[uint64(twoN)-pow] = -i
+		if i == 0 {
+			// -g^0 = -1: there is no negative zero, the negative set stores it under 2N (see BlindRotateCore)
+			/* #nosec G115 -- twoN cannot be negative */
+			GaloisGenDiscreteLog[uint64(twoN)-pow] = twoN
+		}
 		pow *= GaloisGen
 		pow &= mask
 	}
@@ -265,6 +279,11 @@ func (eval *Evaluator) getDiscreteLogSets(a []uint64) (discreteLogSets map[int][
 
 		if ai&1 != 1 && ai != 0 {
 			panic("getDiscreteLogSets: a[i] is not odd and thus not an element of Z_{2N}^{*} -> a[i] = (+/- 1) * g^{k} does not exist.")
+		}
+
+		// a[i] = 0 contributes X^{0 * s[i]} = 1: it belongs to no set (it is not g^0 = 1)
+		if ai == 0 {
+			continue
 		}
 
 		dlog := GaloisGenDiscreteLog[ai]
